@@ -347,7 +347,7 @@ def c12_streams(tier, rng):
     cases = gens.chain_cases(rng, True, ntr, per)
     orc = {"stage0", "stage1", "stage2", "nopanic"}
     return [Stream("chains", "chain", cases, lambda c, o: _re.search(r" t\d=[^- ]", o) is not None, False,
-                   "all two-stage chains over {head,tail,skip} x {static p in 0/2/5, dyninit, dynamic; handed over as (values, stream) or - for dynamic, static 2, dyninit 2 - as the adapter itself} + filter/filter_map (4 masks) and %d seeded three-stage chains, %d random histories each (source diffs, batches, limit changes of any stage, full drains), per-stage taps; sort is exercised as a single stage in C11 only" % (ntr, per),
+                   "all two-stage chains over {head,tail,skip} x {static p in 0/2/5, dyninit, dynamic; handed over as (values, stream) or - for dynamic, static 2, dyninit 2 - as the adapter itself} + filter/filter_map (4 masks) and %d seeded three-stage chains, %d random histories each (source diffs, batches, limit changes of any stage, full drains), per-stage taps; plus chains with sort at the bottom under every other stage (distinct values, no Truncate)" % (ntr, per),
                    chain_hist, oracles=orc),
             Stream("end-to-end", "e2e", gens.e2e_cases(rng, 3000 if q else 100000), e2e_nontriv, False,
                    "%d seeded random histories of 1-2 stage stacks on a real ObservableVector subscriber (plain and batched), see C13; here: rebuilt view = stack's view of the vector at every Pending, every diff applicable, no panic" % (3000 if q else 100000),
